@@ -40,6 +40,7 @@ func VerifC08Verdict() {
 			verifAssert(false, "save-returns-error")
 			return
 		}
+		nBefore := len(h.hash)
 		before := h.observeRepo(h.repo)
 		storeBefore := h.store.clone()
 		var got, want string
@@ -68,7 +69,7 @@ func VerifC08Verdict() {
 			if wasAccepted {
 				verifReach("resubmitted-known")
 				verifAssert(got == "ok", "resubmitting-known-header-not-accepted")
-				verifAssert(h.observeRepo(h.repo) == before, "resubmitting-known-header-changed-state")
+				verifAssert(h.observeRepoN(h.repo, nBefore) == before, "resubmitting-known-header-changed-state")
 				verifAssert(sub.drain("dup:") == 0, "resubmitting-known-header-announced")
 			}
 		}
@@ -82,7 +83,7 @@ func VerifC08Verdict() {
 		}
 		if got != "ok" {
 			verifReach("refused")
-			verifAssert(h.observeRepo(h.repo) == before, "refusal-changed-observable-state")
+			verifAssert(h.observeRepoN(h.repo, nBefore) == before, "refusal-changed-observable-state")
 			verifAssert(sub.drain("refused:") == 0, "refusal-announced-headers")
 			if err := h.repo.Save(h.ctx); err != nil {
 				verifAssert(false, "save-returns-error")
